@@ -129,7 +129,7 @@ pub fn bfs<Q: QueueApi>(u: u32, r: i64, max_states: u64, wide: bool, sink: &mut 
                 // cheap liveness marker; the full path is reconstructed on demand
                 journal.line(&format!("T {}", out.transitions));
             }
-            let mut st = State { q: q.q_clone(), m: model.clone(), order_suspended: false, expected_leaks: 0, used_drain_or_clear: false };
+            let mut st = State { q: q.q_clone(), m: model.clone(), order_suspended: false, expected_leaks: 0, used_drain_or_clear: false, tables_broken: false };
             let res = catch_unwind(AssertUnwindSafe(|| {
                 st.exec(&op)?;
                 let s = st.post_check(op.name(), op.extra_props(), &universe, true)?;
